@@ -1188,12 +1188,19 @@ func c05Main(t *testing.T, rep *kit.Report) {
 	if kit.Shard() == 0 {
 		rep.Count("sequences_in_bound", int64(len(all)))
 	}
-	for i, seq := range all {
-		if !kit.Mine(i) {
-			continue
-		}
+	// Work units: the front end starts many short-lived worker processes (a process that has opened some thousand shards
+	// inside a bubble occasionally hangs inside the Go 1.25.0 runtime, see notes); unit u of U takes the u-th contiguous
+	// block of the list, so that a deadline cuts the longest sequences.
+	units, unit := kit.NShard(), kit.Shard()
+	block := (len(all) + units - 1) / units
+	lo, hi := unit*block, (unit+1)*block
+	if hi > len(all) {
+		hi = len(all)
+	}
+	for i := lo; i < hi; i++ {
+		seq := all[i]
 		if rep.Expired() || c05Expired.Load() {
-			rep.Cut(fmt.Sprintf("deadline: this worker stopped at sequence %d of %d (shortest first)", i, len(all)))
+			rep.Cut(fmt.Sprintf("deadline: unit %d of %d stopped at sequence %d of its block [%d,%d) (list of %d, shortest first)", unit, units, i, lo, hi, len(all)))
 			break
 		}
 		if debug {
